@@ -63,8 +63,9 @@ class ServiceModel:
     """table: sid -> (profile, behaviour)"""
 
     def __init__(self, table: dict[int, tuple[tuple[int, ...], str]], sessions: tuple[int, ...] = SESS, s3: float | None = None,
-                 crash: tuple[int, float] | None = None, start: int = 1) -> None:
+                 crash: tuple[int, float] | None = None, start: int = 1, reset_delay: float = 0.0) -> None:
         self.table = table
+        self.reset_delay = reset_delay  # a positively answered ECUReset is performed that much later
         self.start_session = start  # session a previous tester left the ECU in
         self.sessions = sessions
         self.s3 = s3  # the ECU falls back to the default session after s3 seconds without an answered request
@@ -220,7 +221,9 @@ class IdentModel:
     """pos: session -> set of (did, sub_function) answered positively for `service`"""
 
     def __init__(self, service: int, pos: dict[int, frozenset[tuple[int, int]]], payload: bytes, other: int,
-                 jumps: dict[tuple[int, int], int] | None = None, start: int = 1) -> None:
+                 jumps: dict[tuple[int, int], int] | None = None, start: int = 1, oneshot: tuple[int, ...] = ()) -> None:
+        self.oneshot = set(oneshot)  # sessions that can be entered only once (a second DiagnosticSessionControl is refused with 0x22)
+        self.entered: dict[int, int] = {}
         self.service = service
         self.pos = pos
         self.jumps = jumps or {}  # (identifier, sub-function) whose positive answer moves the ECU into another session
@@ -234,6 +237,9 @@ class IdentModel:
         if sid == 0x10 and len(req) == 2:
             t = req[1] & 0x7F
             if t in self.sessions:
+                if t in self.oneshot and self.entered.get(t, 0) >= 1:
+                    return bytes([0x7F, 0x10, 0x22]), session
+                self.entered[t] = self.entered.get(t, 0) + 1
                 return bytes([0x50, t, 0x00, 0x32, 0x01, 0xF4]), t
             return bytes([0x7F, 0x10, 0x12]), session
         if sid == 0x11 and len(req) == 2 and req[1] & 0x7F == 1:
@@ -281,8 +287,16 @@ def judge_idents(item: dict[str, Any], box: dict[str, Any], model: IdentModel, r
     if "exc" in box:
         v("entry-point-raised", f"entry_point raised {box['exc']}")
         return
-    if box.get("exit") != 0:
-        v(f"exit-code|{box.get('exit')}", f"exit code {box.get('exit')}")
+    # a session the ECU refuses to re-enter after the scan itself left it: the scan of THAT session is aborted (exit code 1);
+    # every other session of the list must still be scanned completely
+    oneshot = set(cfg.get("_model", {}).get("oneshot", ()))
+    aborted = {int(m.group(1), 16) for _l, _n, msg in box["records"] if (m := re.match(r"Aborting scan on session (0x[0-9a-fA-F]+)", msg))}
+    if aborted - oneshot:
+        v("scan-aborted-without-cause", f"scan of session(s) {sorted(aborted - oneshot)} aborted although the ECU never refused to re-enter them")
+        return
+    want_exit = 1 if aborted else 0
+    if box.get("exit") != want_exit:
+        v(f"exit-code|{box.get('exit')}", f"exit code {box.get('exit')}" + (f" (scan of session {sorted(aborted)} was aborted: 1 expected)" if aborted else ""))
         return
     sessions = cfg.get("sessions")
     skip: dict[int, Any] = {int(k): val for k, val in cfg.get("skip", {}).items()}
@@ -292,6 +306,9 @@ def judge_idents(item: dict[str, Any], box: dict[str, Any], model: IdentModel, r
     subs = [1, 2, 3] if service == 0x31 else [0]
     scanned = [1] if sessions is None else [s for s in sessions if not (s in skip and skip[s] is None)]
     counts = [int(m.group(1)) for _l, n, msg in box["records"] if n == "RESULT" and (m := re.match(r"Positive replies: (\d+)", msg))]
+    scanned = [x for x in scanned if x not in aborted]  # (an aborted session has no counter lines)
+    if aborted:
+        res.count("identifier_scans_with_aborted_session")
     if len(counts) != len(scanned):
         v("counter-lines", f"{len(counts)} 'Positive replies' lines for {len(scanned)} scanned sessions")
         return
@@ -361,7 +378,7 @@ def run_item(item: dict[str, Any]) -> Result:
         table = {int(k): (tuple(val[0]), val[1]) for k, val in item["table"].items()}
         cfg = dict(item["cfg"])
         mopts = cfg.pop("_model", {})
-        model: Any = ServiceModel(table, s3=mopts.get("s3"), crash=tuple(mopts["crash"]) if mopts.get("crash") else None, start=mopts.get("start", 1))
+        model: Any = ServiceModel(table, s3=mopts.get("s3"), crash=tuple(mopts["crash"]) if mopts.get("crash") else None, start=mopts.get("start", 1), reset_delay=mopts.get("reset_delay", 0.0))
         kw: dict[str, Any] = {}
         if cfg.get("sessions") is not None:
             kw["sessions"] = list(cfg["sessions"])
@@ -383,7 +400,7 @@ def run_item(item: dict[str, Any]) -> Result:
         pos = {int(s): frozenset(tuple(x) for x in p) for s, p in item["pos"].items()}
         mo = item["cfg"].get("_model", {})
         jumps = {(int(a), int(b)): int(c) for a, b, c in mo.get("jumps", [])}
-        model = IdentModel(item["service"], pos, bytes.fromhex(item["cfg"].get("payload") or ""), item["other"], jumps, mo.get("start", 1))
+        model = IdentModel(item["service"], pos, bytes.fromhex(item["cfg"].get("payload") or ""), item["other"], jumps, mo.get("start", 1), tuple(mo.get("oneshot", ())))
         cfg = dict(item["cfg"])
         kw = {"service": item["service"], "start": cfg["start"], "end": cfg["end"]}
         if cfg.get("sessions") is not None:
@@ -417,6 +434,9 @@ SVC_CFGS_TIMED = [
     # down times chosen so that the first session read after the crashing service is lost and a retry of it is answered
     {"sessions": [3], "check_session": True, "tester_present": False, "_model": {"crash": [0xA3, 12.0]}},
     {"sessions": [3, 2], "check_session": True, "_model": {"crash": [0xA3, 20.0]}},
+    # the ECU acknowledges ECUReset at once and performs it 0.3 s later
+    {"sessions": [2, 3], "reset": 1, "_model": {"reset_delay": 0.3}},
+    {"sessions": [3, 1, 2], "reset": 1, "_model": {"reset_delay": 0.3, "start": 2}},
 ]
 SVC_CFGS = [
     {"sessions": [1, 2, 3]},
@@ -490,6 +510,12 @@ def items(tier: str, seed: int) -> list[Any]:
                 (jd, jsf) = sorted(sub)[si % len(sub)]
                 variants.append({"sessions": [2, 1], "start": wins[0][0], "end": wins[0][1], "check_session": 1, "_model": {"jumps": [[jd, jsf, 1 if si % 3 else 3]]}})
                 variants.append({"sessions": [1, 2], "start": wins[0][0], "end": wins[0][1], "check_session": 1, "_model": {"jumps": [[jd, jsf, 3]], "start": 2}})
+            if other_sub and (not quick or si % 3 == 1):
+                # session 2 cannot be re-entered once the scan has left it (a probe answered positively there drops the ECU to the
+                # default session): that session's scan is aborted, the remaining sessions must still be scanned
+                (jd, jsf) = sorted(other_sub)[si % len(other_sub)]
+                variants.append({"sessions": [2, 1], "start": wins[0][0], "end": wins[0][1], "check_session": 1, "_model": {"jumps": [[jd, jsf, 1]], "oneshot": [2]}})
+                variants.append({"sessions": [2, 3, 1], "start": wins[0][0], "end": wins[0][1], "check_session": 1, "_model": {"jumps": [[jd, jsf, 3]], "oneshot": [2]}})
             for vi, cfg in enumerate(variants):
                 out.append({"kind": "identifiers", "service": service, "pos": pos, "other": [0x31, 0x12, 0x33, 0x11][si % 4], "cfg": cfg, "sample": si == 9 and vi == 0})
     return out
